@@ -27,6 +27,7 @@ def check(ctx, R):
     T = terms(ctx)
     _blob(ctx, R, T)
     _keyfile(ctx, R, T)
+    _keygen(ctx, R, T)
     _sign_cryptography(ctx, R, T)
     _sign_pythonrsa(ctx, R, T)
     _sign_pycryptodome(ctx, R, T)
@@ -285,3 +286,31 @@ def _stateless(ctx, R):
                     if kk and kk.startswith(sg.params[0] + "."):
                         R.fail("STATELESS", "%s|%s" % (sg.qualname, norm_stmt(call)), "Sign() feeds the token into long-lived signer state (`%s`): the second signature covers both tokens" % norm_stmt(call), sg.loc(call))
     R.ok("STATELESS", "auth", "no module-level caches, Sign() leaves the signer unchanged", "adb_shell/auth", trivial=True)
+
+
+def _keygen(ctx, R, T):
+    """keygen(): a 2048-bit key (the blob has room for exactly 256 modulus bytes), written as PEM, then its public key file."""
+    f = ctx.pkg.funcs.get("auth.keygen.keygen")
+    if f is None:
+        raise AnalysisError("KEYGEN", "auth.keygen.keygen not found")
+    g = ctx.cfg(f)
+    gens = [(n, c) for n in g.live_nodes() for c in node_calls(n) if call_attr(c) == "generate_private_key"]
+    R.check(len(gens) == 1, "KEYGEN", f.qualname + "|generate", "one key generation", "expected one generate_private_key call, found %d" % len(gens), f.loc())
+    msize = ctx.fold.need("auth.keygen", "ANDROID_PUBKEY_MODULUS_SIZE", "KEYGEN")
+    for n, c in gens:
+        kw = {k.arg: k.value for k in c.keywords}
+        ks = kw.get("key_size", c.args[1] if len(c.args) > 1 else None)
+        ok, v = ctx.fold.try_eval(ks, f.mod, {}) if ks is not None else (False, None)
+        R.check(ok and v == msize * 8 == 2048, "KEYGEN", f.qualname + "|key-size", "key size = 2048 bits = the blob's modulus field",
+                "the generated key has %r bits; the Android RSAPublicKey blob holds exactly %d modulus bytes" % (v, msize), f.loc(n.ast))
+        pe = kw.get("public_exponent", c.args[0] if c.args else None)
+        ok, v = ctx.fold.try_eval(pe, f.mod, {}) if pe is not None else (False, None)
+        R.check(ok and v in (3, 65537), "KEYGEN", f.qualname + "|exponent", "public exponent 65537", "public exponent %r" % (v,), f.loc(n.ast))
+    wp = [(n, c) for n in g.live_nodes() for c in node_calls(n) if call_attr(c) == "write_public_keyfile"]
+    ok = len(wp) == 1 and g.dominates([wp[0][0]], g.exit, exc=False)
+    if ok:
+        n, c = wp[0]
+        a = [T.term(f, n, x) for x in c.args]
+        ok = len(a) == 2 and a[0] == ("p", f.params[0]) and a[1] == ("CONCAT", ("p", f.params[0]), ("c", ".pub"))
+    R.check(ok, "KEYGEN", f.qualname + "|public-file", "the public key file <path>.pub is written from the private key just saved",
+            "keygen() does not always write <filepath>.pub from the private key at <filepath>", f.loc())
